@@ -1,1 +1,55 @@
-From Verif Require Import Base Tie.
+(* C08 -- row equivariance and independence from irrelevant frame structure.
+   The model's frames are association lists of columns: the pandas index is not an input at all.
+   Not proved: row permutation for designs WITH group-specific terms (statement kept as
+   Prediction.perm_rows_full_statement); decided by the correspondence and the oracle. *)
+From Verif Require Import Base Tokens Algebra Frame Eval Design FrameStructure PermKernel Prediction.
+From Coq Require Import Permutation.
+From Verif Require Tie.
+Local Close Scope Qc_scope.
+Local Close Scope Q_scope.
+
+(* column order, unused columns (whatever they contain): irrelevant *)
+Theorem C08_design_frame_agree :
+  forall cx e d1 d2 na,
+    NoDup (map fst d1) -> NoDup (map fst d2) -> frame_wf d1 -> frame_wf d2 ->
+    frame_rows d1 = frame_rows d2 ->
+    (forall m, describe e = Ok m -> forall k, In k (model_vars m) -> assoc k d1 = assoc k d2) ->
+    design_matrices cx e d1 na = design_matrices cx e d2 na.
+Proof. exact design_frame_agree. Qed.
+
+(* permuting the rows permutes the rows of the response and of every common term, and changes
+   nothing else: names, kinds, labels, levels, contrasts, fitted transform parameters *)
+Theorem C08_perm_rows :
+  forall idx D ex0 sq m ds,
+    frame_wf D -> frame_unordered D ->
+    (forall k w, assoc k ex0 = Some w -> is_scalar w = true) ->
+    Permutation idx (seq 0 (frame_rows D)) ->
+    groups m = [] ->
+    (forall t, In (CT t) (commons m) -> Forall (comp_safe []) t) ->
+    (forall t, resp m = Some t -> Forall (comp_safe []) t) ->
+    eval_model (DCtx ex0 sq) D m = Ok ds ->
+    exists ds',
+      eval_model (DCtx ex0 sq) (frame_pick idx D) m = Ok ds' /\
+      ds_nrows ds' = frame_rows D /\
+      map dt_name (ds_common ds') = map dt_name (ds_common ds) /\
+      map dt_kind (ds_common ds') = map dt_kind (ds_common ds) /\
+      map dt_labels (ds_common ds') = map dt_labels (ds_common ds) /\
+      map dt_rows (ds_common ds') = map (pick idx) (map dt_rows (ds_common ds)) /\
+      map (fun t => map dc_levels (dt_comps t)) (ds_common ds') =
+      map (fun t => map dc_levels (dt_comps t)) (ds_common ds) /\
+      map (fun t => map dc_contrast (dt_comps t)) (ds_common ds') =
+      map (fun t => map dc_contrast (dt_comps t)) (ds_common ds) /\
+      map (fun t => map (fun d => tc_state (dc_t d)) (dt_comps t)) (ds_common ds') =
+      map (fun t => map (fun d => tc_state (dc_t d)) (dt_comps t)) (ds_common ds) /\
+      option_map dt_rows (ds_response ds') = option_map (pick idx) (option_map dt_rows (ds_response ds)) /\
+      option_map dt_labels (ds_response ds') = option_map dt_labels (ds_response ds).
+Proof. exact perm_rows. Qed.
+
+(* the kernels a fit uses are permutation invariant *)
+Theorem C08_mean_perm : forall l l', Permutation l l' -> mean l = mean l'.
+Proof. exact mean_perm. Qed.
+Theorem C08_levels_perm : forall num l l', Permutation l l' -> sort_levels num l = sort_levels num l'.
+Proof. exact sort_levels_perm. Qed.
+
+Print Assumptions C08_design_frame_agree.
+Print Assumptions C08_perm_rows.
